@@ -65,6 +65,7 @@ func c05Check(cc CfgCase, rec *Recorder) *Disc {
 		return nil // not made of labelled atoms (foreign replay file)
 	}
 	rec.Eval(1)
+	var held []heldErr
 	for pass := 0; pass < 2; pass++ {
 		var (
 			m   *cors.Middleware
@@ -100,6 +101,23 @@ func c05Check(cc CfgCase, rec *Recorder) *Disc {
 		if why := matchErrors(exp, obs); why != "" {
 			return discf("%s(%+v): %s; expected %v, cfgerrors.All yielded %v", entry, c, why, exp, obs)
 		}
+		held = append(held, heldErr{entry, err, fmt.Sprintf("%+v", obs), err.Error()})
+	}
+	// An error is a report about the configuration that was supplied with it: it keeps carrying
+	// those values after other configurations (with other offending values of the same kinds) have
+	// been validated, by this or another middleware.
+	if len(held) > 0 {
+		for _, other := range []Cfg{shiftedCfg(c), pokeCfg} {
+			cors.NewMiddleware(other.Cors())
+			oc := other.Cors()
+			new(cors.Middleware).Reconfigure(&oc)
+		}
+		for _, h := range held {
+			obs, bad := ObservedErrors(h.err)
+			if now := fmt.Sprintf("%+v", obs); bad != "" || now != h.obs || h.err.Error() != h.msg {
+				return discf("the error returned by %s(%+v) changed after other configurations were validated: cfgerrors.All yielded %s then, %s now (%s); message %q then, %q now", h.entry, c, h.obs, now, bad, h.msg, h.err.Error())
+			}
+		}
 	}
 	switch {
 	case len(exp) == 0:
@@ -118,6 +136,41 @@ func c05Check(cc CfgCase, rec *Recorder) *Disc {
 	return nil
 }
 
+type heldErr struct {
+	entry string
+	err   error
+	obs   string
+	msg   string
+}
+
+// shiftedCfg is c with every out-of-bounds integer moved further out and every list reversed.
+func shiftedCfg(c Cfg) Cfg {
+	x := c
+	switch {
+	case c.MaxAge > 86400:
+		x.MaxAge = c.MaxAge + 1
+	case c.MaxAge < -1:
+		x.MaxAge = c.MaxAge - 1
+	}
+	if c.Status != 0 && (c.Status < 200 || c.Status > 299) {
+		x.Status = c.Status + 1000
+	}
+	rev := func(in []Str) []Str {
+		out := make([]Str, len(in))
+		for i, v := range in {
+			out[len(in)-1-i] = v
+		}
+		return out
+	}
+	x.Origins, x.Methods, x.RequestHeaders, x.ResponseHeaders = rev(c.Origins), rev(c.Methods), rev(c.RequestHeaders), rev(c.ResponseHeaders)
+	return x
+}
+
+// pokeCfg violates every kind of rule at once with values no generated configuration uses.
+var pokeCfg = Cfg{Origins: SS("https://poke.example/path", "null", "*", "http://poke.example", "https://*.com"), Credentialed: true,
+	Methods: SS("PO KE", "CONNECT"), RequestHeaders: SS("po ke", "Access-Control-Poke", "Sec-Poke"), ResponseHeaders: SS("po ke", "*", "Set-Cookie"),
+	MaxAge: -777, Status: 777, PNA: true, PNANoCORS: true}
+
 func bucket(n int) string {
 	switch {
 	case n <= 3:
@@ -133,7 +186,7 @@ func bucket(n int) string {
 func TestC05(t *testing.T) {
 	Prop[CfgCase]{ID: "C05", Gen: c05Gen, Check: c05Check,
 		Rule: "generator: configurations built only from labelled atoms (origin patterns: valid / insecure / public-suffix wildcard / 70 strings each with one documented defect; methods, request- and response-header names: valid / forbidden / prohibited / invalid in several letter cases; integers at and around each bound; all switch combinations), " +
-			"three balanced classes: all valid, exactly one planted violation, many simultaneous violations in any position and multiplicity. Oracle: multiset of documented typed errors (type, Value as supplied, Type, Reason, bounds) == cfgerrors.All sequence, for NewMiddleware and for Reconfigure on a zero value. " +
+			"three balanced classes: all valid, exactly one planted violation, many simultaneous violations in any position and multiplicity. Oracle: multiset of documented typed errors (type, Value as supplied, Type, Reason, bounds) == cfgerrors.All sequence, for NewMiddleware and for Reconfigure on a zero value; both errors are inspected again, and must be unchanged, after a shifted copy of the configuration (every out-of-bounds integer moved, lists reversed) and a configuration violating every rule have been validated. " +
 			"non-trivial = >=2 simultaneous violations in >=2 different fields, or an all-valid configuration using >=3 optional features; distinct by configuration.",
 		Assumptions: []string{"atom labels are taken from the Config/ExtraConfig/cfgerrors documentation and the Fetch forbidden-name lists",
 			"for malformed origin patterns the documentation does not say which of invalid/prohibited applies, so either is accepted (except null and file:, documented as prohibited)"}}.Run(t)
@@ -365,6 +418,23 @@ func c04Check(cc CfgCase, rec *Recorder) *Disc {
 			}
 		}
 	}
+	// entry point 5: Reconfigure on a middleware whose current configuration differs from c in ONE
+	// respect only (same lists, element for element): what is wrong with c does not depend on what
+	// the middleware holds, however much of the old configuration could be reused.
+	if len(bad) > 0 {
+		for _, pr := range nearPriors(c) {
+			mp, errP := cors.NewMiddleware(pr.cfg.Cors())
+			if errP != nil {
+				continue
+			}
+			rec.Class("near-prior-valid")
+			rec.Class("near-prior:" + pr.what)
+			cfg5 := c.Cors()
+			if err5 := mp.Reconfigure(&cfg5); err5 == nil {
+				return discf("Reconfigure accepted %+v on a middleware currently configured with the same configuration except %s (%+v) although: %v", c, pr.what, pr.cfg, bad)
+			}
+		}
+	}
 	// entry point 3: Reconfigure on a configured middleware
 	base, _ := cors.NewMiddleware(cors.Config{Origins: []string{"https://example.com"}})
 	cfg3 := c.Cors()
@@ -374,10 +444,40 @@ func c04Check(cc CfgCase, rec *Recorder) *Disc {
 	return nil
 }
 
+type nearPrior struct {
+	what string
+	cfg  Cfg
+}
+
+// nearPriors lists the configurations that differ from c in one setting (or
+// one group of switches) only; the lists it keeps are kept verbatim.
+func nearPriors(c Cfg) []nearPrior {
+	var out []nearPrior
+	add := func(what string, edit func(x *Cfg)) {
+		x := c
+		edit(&x)
+		if fmt.Sprintf("%+v", x) != fmt.Sprintf("%+v", c) {
+			out = append(out, nearPrior{what, x})
+		}
+	}
+	add("both tolerate switches on", func(x *Cfg) { x.TolInsecure, x.TolPSL = true, true })
+	add("DangerouslyTolerateInsecureOrigins on", func(x *Cfg) { x.TolInsecure = true })
+	add("DangerouslyTolerateSubdomainsOfPublicSuffixes on", func(x *Cfg) { x.TolPSL = true })
+	add("Credentialed off", func(x *Cfg) { x.Credentialed = false })
+	add("PNA modes off", func(x *Cfg) { x.PNA, x.PNANoCORS = false, false })
+	add("Credentialed and PNA modes off", func(x *Cfg) { x.Credentialed, x.PNA, x.PNANoCORS = false, false, false })
+	add("default max-age and status", func(x *Cfg) { x.MaxAge, x.Status = 0, 0 })
+	add("no Methods", func(x *Cfg) { x.Methods = nil })
+	add("no RequestHeaders", func(x *Cfg) { x.RequestHeaders = nil })
+	add("no ResponseHeaders", func(x *Cfg) { x.ResponseHeaders = nil })
+	add("Origins https://example.com", func(x *Cfg) { x.Origins = SS("https://example.com") })
+	return out
+}
+
 func TestC04(t *testing.T) {
 	Prop[CfgCase]{ID: "C04", Gen: c04Gen, Check: c04Check,
 		Rule: "generator: as C05 (labelled atoms, all switch combinations, integers around every bound) plus byte junk inserted at any position of any list (random bytes, one-byte mutations/insertions/deletions of valid patterns, scheme/separator/port recombinations) and full-range integers; " +
-			"fed to NewMiddleware, Reconfigure on a passthrough, Reconfigure on an unrelated configured middleware, and Reconfigure on a middleware configured with the relaxed variant of the same configuration (get-modify-set on its own Config()). Oracle (soundness only): nil error => no labelled violation and no syntactically evident defect; non-nil error => nil *Middleware. " +
+			"fed to NewMiddleware, Reconfigure on a passthrough, Reconfigure on an unrelated configured middleware, Reconfigure on a middleware configured with the relaxed variant of the same configuration (get-modify-set on its own Config()), and Reconfigure on middlewares whose current configuration is the same except for one setting (each tolerate switch on, Credentialed off, PNA off, default integers, one list emptied). Oracle (soundness only): nil error => no labelled violation and no syntactically evident defect; non-nil error => nil *Middleware. " +
 			"non-trivial = configuration that contains at least one definite violation (an acceptance would be wrong); distinct by configuration.",
 		Assumptions: []string{"junk strings are judged only when a documented defect is syntactically evident; all other junk is grey and not judged (completeness is C05's business)"}}.Run(t)
 }
